@@ -123,6 +123,42 @@ def h_merge_step(ex, occ, lens, tail, slack):
     return {"key": coo.key[:n2], "val": coo.val[:n2]}
 
 
+def h_chunks(ex, n_docs, kind):
+    """_generate_chunk_boundaries for every vector of document sizes (symbolic, any magnitude) and every n_threads:
+    the chunks are a contiguous, disjoint, complete cover of range(len(data)) -- so the per-chunk matrices add up to the
+    matrix of the whole corpus whatever the number of threads"""
+    from symx.containers import SymLenList
+    if kind == "multiset":
+        cls = loader.load("vectorizers.multi_token_cooccurence_vectorizer").MultiSetCooccurrenceVectorizer
+    else:
+        cls = loader.load("vectorizers.base_cooccurrence_vectorizer").BaseCooccurrenceVectorizer
+    sizes = [fresh_int("size%d" % i, 0, 10 ** 9) for i in range(n_docs)]
+    assume(sum(sizes, 0) >= 1)
+    nt = fresh_int("n_threads", 1, 64)
+    register("sizes", sizes); register("n_threads", nt)
+    data = []
+    for sz in sizes:
+        if kind == "multiset":
+            inner = SymLenList([0])          # one multiset per document, carrying the whole size
+            inner._symx_len = sz
+            data.append([inner])
+        else:
+            d = SymLenList([0])
+            d._symx_len = sz
+            data.append(d)
+    chunks = call(cls._generate_chunk_boundaries, None, data, nt)
+    check("at least one chunk", len(chunks) >= 1)
+    if not chunks:
+        return None
+    conds = [chunks[0][0] == 0, chunks[-1][1] == n_docs]
+    for (a, b), (c, d) in zip(chunks, chunks[1:]):
+        conds.append(b == c)
+    for a, b in chunks:
+        conds.append(sand(a >= 0, a <= b, b <= n_docs))
+    check("chunks are a contiguous, disjoint, complete cover of the documents", sand(*conds))
+    return {"chunks": [[a, b] for a, b in chunks]}
+
+
 def cases(tier):
     cs = []
     if tier == "quick":
@@ -136,6 +172,11 @@ def cases(tier):
                        bounds={"capacity": cap, "COO_QUICKSORT_LIMIT": limit, "appends": K, "distinct keys": nkeys, "values": "reals > 0"},
                        assumptions=["COO_QUICKSORT_LIMIT lowered from 65536 to %d (module global, also frozen into the compiled code for the replay)" % limit],
                        functions=FUNCS))
+    for nd, kind in ([(3, "token"), (2, "multiset")] if tier == "quick" else [(3, "token"), (4, "token"), (5, "token"), (3, "multiset"), (4, "multiset")]):
+        cs.append(Case("chunk_boundaries[docs=%d,%s]" % (nd, kind), h_chunks, dict(n_docs=nd, kind=kind), replay="C04:replay_chunks", witness="C04:witness_chunks",
+                       functions=["base_cooccurrence_vectorizer.BaseCooccurrenceVectorizer._generate_chunk_boundaries",
+                                  "multi_token_cooccurence_vectorizer.MultiSetCooccurrenceVectorizer._generate_chunk_boundaries"], max_witness=10,
+                       bounds={"documents": nd, "document sizes": "symbolic 0 .. 10^9", "n_threads": "symbolic 1 .. 64"}))
     # inductive step over run-stack states: every occupancy pattern of a stack of depth <= 3 (4 thorough)
     pats = []
     for depth in ((1, 2, 3) if tier == "quick" else (1, 2, 3, 4)):
